@@ -92,13 +92,13 @@ pub const CORPUS: [&str; 30] = [
     "char a, b, c;\nvoid main()\n{\n  if (a && b || !c) a = 1;\n  else if (a == 1 && (b != 2 || c >= 3)) a = 2;\n}\n",
     "superchip char sa;\nsuperchip short ss;\nvoid main()\n{\n  sa = 1;\n  ss = 2;\n  sa++;\n}\n",
     "const char t2[] = {1, 2, 3, 4};\nconst char *tt[] = {t2, t2};\nchar *q;\nvoid main()\n{\n  q = tt[X];\n}\n",
-    "char a;\nconst char k = 5 * 3 + (2 << 1);\nchar arr[k];\nvoid main()\n{\n  a = sizeof(arr);\n  a = k;\n}\n",
+    "char a;\nconst char k = 5 * 3 + (2 << 1);\nchar arr[5 * 3];\nvoid main()\n{\n  a = sizeof(arr);\n  a = k;\n}\n",
     "/* comment */\nchar a; // trailing\nvoid main() /* c */\n{\n  a = 1; /* multi\n  line */ a = 2;\n}\n",
     "char a;\nvoid g();\nvoid f() { g(); }\nvoid g() { a++; }\nvoid main()\n{\n  f();\n}\n",
     "aligned(256) const char big[3] = {1, 2, 3};\nbank1 const char inb[2] = {4, 5};\nchar r;\nvoid main()\n{\n  r = big[X];\n}\n",
     "char a;\nvoid main()\n{\n  a = 010;\n  a = 0x1f;\n  a = '\\n';\n  a = -1;\n  a = 255;\n}\n",
     "char a, b;\nvoid main()\n{\n  a = b = 3;\n  a += b -= 1;\n  a = (b, 2);\n  a = b++ + 1;\n  --a;\n}\n",
-    "char i;\nvoid main()\n{\n  for (i = 0; i != 10; i++) {\n    if (i & 1) continue;\n    X = i;\n  }\n  for (;;) { i++; if (i == 0) break; }\n}\n",
+    "char i;\nvoid main()\n{\n  for (i = 0; i != 10; i++) {\n    if (i & 1) continue;\n    X = i;\n  }\n  for (i = 0; i < 3; ) { i++; if (i == 2) break; }\n}\n",
     "#define A 1\n#undef A\n#define A 2\n#if A == 2\nchar two;\n#elif A\nchar other;\n#endif\nvoid main()\n{\n}\n",
     "unsigned char x;\nchar f(char a, char b) { if (a > b) return a; return b; }\nvoid main()\n{\n  x = f(1, f(2, 3));\n}\n",
     "short tab16[2];\nchar idx;\nvoid main()\n{\n  tab16[X] = 1000;\n  tab16[1] += 2;\n  idx = tab16[X] >> 8;\n}\n",
@@ -275,7 +275,7 @@ pub fn mutants(tier: Tier) -> Vec<Input> {
         let idxs: Vec<usize> = (0..toks.len()).filter(|i| !toks[*i].trim().is_empty()).collect();
         let join = |t: &Vec<String>| t.concat();
         v.push(Input { family: "corpus", name: format!("p{} unchanged", pi), src: p.as_bytes().to_vec(), opts: vec!["-O1"] });
-        v.push(Input { family: "corpus", name: format!("p{} unchanged -O0 --insert_code", pi), src: p.as_bytes().to_vec(), opts: vec!["-O0", "--insert_code"] });
+        v.push(Input { family: "corpus", name: format!("p{} unchanged -O0 --insert_code", pi), src: p.as_bytes().to_vec(), opts: vec!["-O0", "--insert-code"] });
         for (n, i) in idxs.iter().enumerate() {
             let mut t = toks.clone();
             t.remove(*i);
